@@ -474,6 +474,10 @@ def ty_lean(t):
         return "(" + " × ".join(ty_lean(x) for x in t[1]) + ")"
     if isinstance(t, tuple) and t[0] == "enum":
         return t[1]
+    if t == "BoolList":
+        return "List (Option Bool)"
+    if t == "OptBool":
+        return "Option Bool"
     if isinstance(t, tuple) and t[0] == "opt":
         inner = ty_lean(t[1])
         return "Option " + (f"({inner})" if " " in inner else inner)
@@ -756,6 +760,37 @@ class Emit:
                     return f"({a} {'&&' if op[0] == '&' else '||'} {b})", "Bool"
                 raise Unsupported("boolean operator on non-booleans")
             raise Unsupported(f"operator {op}")
+        if (k == "mcall" and e[2] == "vfold_n" and len(e[3]) == 2 and e[3][1][0] == "closure" and e[1][0] == "mcall"
+                and e[1][2] == "filter_map" and len(e[1][3]) == 1 and e[1][3][0][0] == "closure"
+                and e[1][1][0] == "mcall" and e[1][1][2] == "zip" and len(e[1][1][3]) == 1
+                and e[1][1][1] == ("mcall", ("path", "self"), "into_iter", [])
+                and e[1][1][3][0][0] == "path" and env.get(e[1][1][3][0][1]) == "BoolList"):
+            # the masked fold of tea-agg: zip with the flags, keep by `filter_map`, then `vfold_n`
+            mask = lname(e[1][1][3][0][1])
+            fm, fo = e[1][3][0], e[3][1]
+            if len(fm[1]) != 1 or fm[1][0][0] != "ptuple" or len(fm[1][0][1]) != 2 or any(q[0] != "pvar" for q in fm[1][0][1]):
+                raise Unsupported("filter_map closure of the masked fold")
+            vn, fn_ = fm[1][0][1][0][1], fm[1][0][1][1][1]
+            env2 = dict(env)
+            env2[vn] = "Elem"
+            env2[fn_] = "OptBool"
+            if assigned_outer(fm[2]):
+                raise Unsupported("filter_map closure assigns")
+            b, tb = self.effect(fm[2], env2, [], ("opt", "Elem"))
+            if tb != ("opt", "Elem"):
+                raise Unsupported(f"filter_map closure result {tb}")
+            itxt, ity = self.ex0(e[3][0], env)
+            if ity != "Rat" or len(fo[1]) != 2 or any(q[0] != "pvar" for q in fo[1]):
+                raise Unsupported("vfold_n of the masked fold")
+            env3 = dict(env)
+            env3[fo[1][0][1]] = "Rat"
+            env3[fo[1][1][1]] = "Rat"
+            fb, ftb = self.effect(fo[2], env3, [], None)
+            if ftb != "Rat":
+                raise Unsupported("vfold_n closure result")
+            body = "(\n" + indent(b) + ")" if "\n" in b else f"({b})"
+            return (f"(vfoldN (fun {lname(fo[1][0][1])} {lname(fo[1][1][1])} => ({fb})) {itxt} "
+                    f"((xs.zip {mask}).filterMap fun ({lname(vn)}, {lname(fn_)}) => {body}))"), ("tuple", ("Nat", "Rat"))
         if k == "mcall" and self.loop_kind(e) is not None:
             t, ty = self.loop(e, env, [], expect)
             return ("(" + t + ")" if "\n" not in t else "(\n" + indent(t) + ")"), ty
@@ -857,7 +892,7 @@ class Emit:
             args = []
             for a in e[3]:
                 at, aty = self.ex0(a, env)
-                if aty != "Nat":
+                if aty not in ("Nat", "BoolList"):
                     raise Unsupported("sibling call argument")
                 args.append(at)
             return f"({lean_name} sqrt xs" + "".join(" " + a for a in args) + ")", ret_ty
@@ -917,6 +952,8 @@ class Emit:
                 return f"({'sortCmp' if name == 'sort_cmp' else 'sortCmpRev'} {rr} {a})", "Ord"
             if name == "cast" and not args and tr == "NoneLit":
                 return "none", "OptF"
+            if name in ("unwrap", "cast") and not args and tr == "Bool":
+                return r, "Bool"
             if name in ("f64",) and not args:
                 if tr == "Nat":
                     return f"(({r} : Nat) : Rat)", "Rat"
@@ -986,6 +1023,8 @@ class Emit:
                 return "(none : Option Rat)", "SentHi"      # `T::MAX`: above every value
             if e[1] == "Some" and len(e[2]) == 1:
                 a, ta = self.ex0(e[2][0], env)
+                if ta == "Elem" and expect == ("opt", "Elem"):
+                    return f"(some {a})", ("opt", "Elem")
                 if ta == "Nat":
                     return f"(some {a})", "OptNat"
                 if ta == "Rat":
@@ -1178,7 +1217,7 @@ class Emit:
                 names = guard
                 env_t = dict(env)
                 for n in names:
-                    env_t[n] = "Rat"
+                    env_t[n] = "Bool" if env[n] == "OptBool" else "Rat"
                 t_txt, t_ty = self.stmts(e[2][1], e[2][2], env_t, outs, expect)
                 if e[3] is None:
                     e_txt, e_ty = self.stmts([], None, dict(env), outs, None)
@@ -1360,7 +1399,7 @@ class Emit:
     def null_guard(self, c, env):
         """`a.not_none()` or `a.not_none() && b.not_none()` over nullable elements -> [names]"""
         def one(x):
-            if x[0] == "mcall" and x[2] in ("not_none", "is_some") and not x[3] and x[1][0] == "path" and env.get(x[1][1]) == "Elem":
+            if x[0] == "mcall" and x[2] in ("not_none", "is_some") and not x[3] and x[1][0] == "path" and env.get(x[1][1]) in ("Elem", "OptBool"):
                 return x[1][1]
             return None
         if c[0] == "paren":
